@@ -4,7 +4,7 @@
    direction in) and one output argument per declared output type; each signal its arguments; each property
    its declared type, access and EmitsChangedSignal annotation (absent = true).  The document type is
    zbus_xml's own (C34/Model.v), with signatures as text.  The XML must be well-formed: in particular no
-   comment may contain "--". *)
+   comment may contain "--" (C27/Model.v xi_wf). *)
 From ZV Require Import Base.Bytes C26.Desc C26.Tree C26.Msg C27.Model.
 From ZV Require C34.Model.
 
@@ -39,15 +39,3 @@ Fixpoint d_node (name : option bytes) (n : node) : xnode :=
 (* what Introspect at an existing path must describe *)
 Definition spec_doc (root : node) (path : bytes) : option xnode :=
   match get_child root (segs_of path) with Some n => Some (d_node None n) | None => None end.
-
-(* the known-deviation class: some doc text of some interface in the subtree contains "--" *)
-Definition doc_dd (d : idesc) : bool :=
-  existsb (fun m => existsb has_dd (xml_doc_lines (md_doc m))) (id_methods d) ||
-  existsb (fun s => existsb has_dd (xml_doc_lines (sd_doc s))) (id_signals d) ||
-  existsb (fun p => existsb has_dd (xml_doc_lines (pd_doc p))) (id_props d).
-Fixpoint node_dd (n : node) : bool :=
-  match n with
-  | Node ifs kids =>
-      existsb (fun i => doc_dd (in_desc i)) ifs ||
-      (fix go (l : list (bytes * node)) : bool := match l with [] => false | (_, c) :: r => node_dd c || go r end) kids
-  end.
